@@ -10,6 +10,7 @@ import (
 type schedGen struct {
 	profile string
 	window  string
+	solo    bool
 	ops     []Op
 	i       int
 }
@@ -46,6 +47,7 @@ func newSchedGen(r *RNG, tier string, profile string) *schedGen {
 		tail = r.Bool(35)
 		fixedLen = 1 + r.Intn(4)
 		pfs = []int{64, 200}[r.Intn(2)]
+		imm = 0 // the preparation of the window variants supersedes records by overwriting
 	}
 	val := func() string {
 		b := make([]byte, 1+r.Intn(6))
@@ -103,7 +105,26 @@ func newSchedGen(r *RNG, tier string, profile string) *schedGen {
 			g.ops = append(g.ops, mkOp("sthread", "name", fmt.Sprintf("t%d", t), "ops", strings.Join(ops, ",")))
 		}
 		g.ops = append(g.ops, mkOp("sprep", "op", "flush"))
-		if relocWin && len(allKeys) > 1 {
+		// flush-window variant: records superseded BEFORE their first flush (their freelist entries name pooled records), a store
+		// Flush stopped between swapping the primary pool and writing it (or at another point inside commit), and a collector cycle
+		// inside the window: its own primary Flush is the barrier that keeps the hand-over behind the records it names
+		flushWin13 := !relocWin && r.Bool(25)
+		if flushWin13 {
+			for i := 0; i < 2+r.Intn(4); i++ {
+				k := allKeys[r.Intn(len(allKeys))]
+				g.ops = append(g.ops, mkOp("sprep", "op", "put:"+k+":"+val()), mkOp("sprep", "op", "put:"+k+":"+val()))
+			}
+			// only the flusher and the collector run: drop the writers
+			var kept []Op
+			for _, o := range g.ops {
+				if o.Name != "sthread" {
+					kept = append(kept, o)
+				}
+			}
+			g.ops = kept
+			g.ops = append(g.ops, mkOp("sthread", "name", "f", "ops", "flush"), mkOp("sthread", "name", "g", "ops", "pgc:"+strconv.Itoa([]int{100, 101, 85}[r.Intn(3)])))
+			g.window = "f:" + []string{"primary.flush.swapped", "primary.flush.swapped", "primary.flush.written", "index.flush.swapped", "freelist.flush.swapped"}[r.Intn(5)] + ":1"
+		} else if relocWin && len(allKeys) > 1 {
 			for i := 0; i < 3+r.Intn(4); i++ {
 				g.ops = append(g.ops, mkOp("sprep", "op", "put:"+allKeys[1+r.Intn(len(allKeys)-1)]+":"+val()))
 				if r.Bool(70) {
@@ -232,10 +253,55 @@ func newSchedGen(r *RNG, tier string, profile string) *schedGen {
 			}
 			g.ops = append(g.ops, mkOp("sthread", "name", "f", "ops", "flush"), mkOp("sthread", "name", "g", "ops", gop))
 			g.window = "f:" + []string{"index.flush.written", "index.flush.written", "index.flush.written", "index.flush.swapped", "primary.flush.written",
-				"store.commit.primary_done", "index.flush.buckets_updated"}[r.Intn(7)] + ":1"
+				"store.commit.primary_done", "index.flush.buckets_updated", "primary.flush.swapped", "primary.flush.swapped"}[r.Intn(9)] + ":1"
+		}
+		// solo-contention variant (c05): one key ALONE in its bucket, present or not, and two or three threads removing, putting and
+		// reading it, over named hook points only. Overlapping mutators of one key are known finding D17; with no neighbour in the
+		// bucket the section model predicts exactly what the code does then, and the finding excuses nothing else.
+		solo := profile == "c05" && r.Bool(12)
+		g.solo = solo
+		if solo {
+			var d []byte
+			for tries := 0; tries < 200; tries++ {
+				d = make([]byte, 8)
+				for i := range d {
+					d[i] = byte(r.Intn(256))
+				}
+				clash := false
+				for _, o := range digests {
+					if bucketOf(o, uint8(bits)) == bucketOf(d, uint8(bits)) {
+						clash = true
+					}
+				}
+				if !clash {
+					break
+				}
+			}
+			sk := hx(mkMultihash(0x12, d))
+			keys = append(keys, sk)
+			if r.Bool(75) {
+				g.ops = append(g.ops, mkOp("sprep", "op", "put:"+sk+":"+val()))
+				if r.Bool(50) {
+					g.ops = append(g.ops, mkOp("sprep", "op", "flush"))
+				}
+			}
+			for t := 0; t < 2+r.Intn(2); t++ {
+				var ops []string
+				for j := 0; j < 1+r.Intn(2); j++ {
+					switch r.Pick(50, 35, 15) {
+					case 0:
+						ops = append(ops, "rm:"+sk)
+					case 1:
+						ops = append(ops, "put:"+sk+":"+val())
+					default:
+						ops = append(ops, "get:"+sk)
+					}
+				}
+				g.ops = append(g.ops, mkOp("sthread", "name", fmt.Sprintf("t%d", t), "ops", strings.Join(ops, ",")))
+			}
 		}
 		nt := 2 + r.Intn(2)
-		if flushWin {
+		if flushWin || solo {
 			nt = 0
 		}
 		// owned mode: every key has one writer (key i belongs to thread i mod nt), so that no two mutators of ONE key overlap
@@ -288,7 +354,7 @@ func newSchedGen(r *RNG, tier string, profile string) *schedGen {
 			}
 			g.ops = append(g.ops, mkOp("sthread", "name", fmt.Sprintf("t%d", t), "ops", strings.Join(ops, ",")))
 		}
-		if !flushWin && r.Bool(70) && !(window && r.Bool(60)) {
+		if !flushWin && !solo && r.Bool(70) && !(window && r.Bool(60)) {
 			g.ops = append(g.ops, mkOp("sthread", "name", "f", "ops", "flush"))
 			// two Flush callers (the periodic flusher and an explicit call) overlap each other and the writers
 			if r.Bool(45) {
@@ -311,6 +377,11 @@ func newSchedGen(r *RNG, tier string, profile string) *schedGen {
 			} else {
 				g.ops = append(g.ops, mkOp("sthread", "name", "g", "ops", gop))
 				g.window = "g:" + points[r.Intn(len(points))] + ":" + strconv.Itoa(1+r.Intn(3))
+				if strings.HasPrefix(gop, "pgc") && !strings.HasSuffix(gop, ":100") && r.Bool(40) {
+					// the window opens INSIDE the index update of the relocation: at the first (second) exclusive lock acquisition
+					// after the copy - lock acquisitions are scheduling points in this variant
+					g.window = "g:primary.gc.reloc.put>" + []string{"lock", "lock>lock", "rlock>lock"}[r.Intn(3)] + ":" + strconv.Itoa(1+r.Intn(2))
+				}
 			}
 		} else if profile == "c06" && !flushWin {
 			var ops []string
@@ -334,9 +405,11 @@ func newSchedGen(r *RNG, tier string, profile string) *schedGen {
 			sched = append(sched, strconv.Itoa(t))
 		}
 	}
-	if g.window != "" {
+	if g.window != "" && strings.Contains(g.window, ">") {
+		g.ops = append(g.ops, mkOp("srun", "sched", strings.Join(sched, ","), "max", "3000", "window", g.window, "locks", "1"))
+	} else if g.window != "" {
 		g.ops = append(g.ops, mkOp("srun", "sched", strings.Join(sched, ","), "max", "1500", "window", g.window))
-	} else if r.Bool(60) {
+	} else if !g.solo && r.Bool(60) {
 		// every lock acquisition of the index, primary, freelist and store is a scheduling point too
 		g.ops = append(g.ops, mkOp("srun", "sched", strings.Join(sched, ","), "max", "3000", "locks", "1"))
 	} else {
